@@ -19,7 +19,7 @@ type Case struct {
 	Delay  string `json:"delay"`  // imm | quarter | half | pre (next timer -1ns) | post (next timer +1ns) | afterfail
 	Noise  string `json:"noise"`
 	WErr   int    `json:"werr"`  // transmission whose WriteTo fails (0 = none)
-	Close  string `json:"close"` // never | pre-start | before-answer | after-tx | with-response | with-response-rev
+	Close  string `json:"close"` // never | pre-start | before-answer | after-tx k | with-timer k | with-response | with-response-rev
 	CloseK int    `json:"close_k,omitempty"`
 }
 
@@ -106,6 +106,9 @@ func closePlans(p plan) []closePlan {
 	cs := []closePlan{{"never", 0}, {"pre-start", 0}}
 	for k := 1; k <= maxSends; k++ {
 		cs = append(cs, closePlan{"after-tx", k})
+	}
+	for k := 2; k <= maxSends+1; k++ { // Close() racing with the timer of transmission k (8: of the final failure)
+		cs = append(cs, closePlan{"with-timer", k})
 	}
 	if p.mask != 0 || p.noise != "none" { // needs a datagram to be before / concurrent with
 		cs = append(cs, closePlan{"before-answer", 0}, closePlan{"with-response", 0}, closePlan{"with-response-rev", 0})
@@ -231,6 +234,19 @@ func script(c Case, main, warm [12]byte) (items []item, evs []hEv, end time.Dura
 	case "after-tx":
 		items = append(items, item{at: s[c.CloseK], prio: prioCloseTx, name: "close", fn: cl("after-tx")})
 		evs = append(evs, hEv{at: s[c.CloseK], prio: prioCloseTx, kind: evClose})
+	case "with-timer":
+		tk := fail
+		if c.CloseK <= maxSends {
+			tk = s[c.CloseK]
+		}
+		// a goroutine that wakes up at the very instant of the timer and calls Close: the order is up to the scheduler
+		items = append(items, item{at: tk - 1, prio: prioDeliver + 100, name: "close-with-timer", fn: func(w *world) {
+			go func() {
+				time.Sleep(time.Nanosecond)
+				w.cl.Close()
+			}()
+			w.closed = true
+		}})
 	case "before-answer":
 		items = append(items, item{at: tFirst, prio: prioCloseAns, name: "close", fn: cl("before-answer")})
 		evs = append(evs, hEv{at: tFirst, prio: prioCloseAns, kind: evClose})
@@ -272,14 +288,14 @@ func werrKind(j int) string {
 }
 
 type result struct {
-	Case     Case      `json:"case"`
-	WantArr  []string  `json:"predicted_transmissions"`
-	Want     []outcome `json:"predicted_outcomes"`
-	Got      obs       `json:"observed"`
-	GotArr   int       `json:"observed_transmissions"`
-	Table    int       `json:"table_size_after_finish"`
-	viols    []viol
-	class    string
+	Case    Case      `json:"case"`
+	WantArr []string  `json:"predicted_transmissions"`
+	Want    []outcome `json:"predicted_outcomes"`
+	Got     obs       `json:"observed"`
+	GotArr  int       `json:"observed_transmissions"`
+	Table   int       `json:"table_size_after_finish"`
+	viols   []viol
+	class   string
 }
 
 // runSingle executes one case on a fresh client in a fresh bubble.
@@ -315,17 +331,26 @@ func runSingle(t *testing.T, c Case) result {
 		items = append(items, item{at: 0, prio: prioTimer, name: "start", fn: func(w *world) { tr = w.start("main", mainID) }})
 		w.play(items)
 		w.goTo(end)
-		wantArr, outs := reference(0, effRTO(c.RTOms), c.WErr, evs)
+		raceK := 0
+		if c.Close == "with-timer" {
+			raceK = c.CloseK
+		}
+		pred := reference(0, effRTO(c.RTOms), c.WErr, raceK, evs)
+		wantArr, outs := pred.arr, pred.outs
 		if c.Close == "pre-start" {
 			// The property does not say whether a client closed beforehand refuses: an immediate error is accepted too.
 			outs = append(outs, outcome{Kind: "closed", At: 0})
 		}
 		v0 := len(w.viols)
-		o := w.checkTx(tr, "", wantArr, outs, w.arrivals())
+		pred.outs = outs
+		o := w.checkTx(tr, "", pred, w.arrivals())
 		v1 := len(w.viols)
 		res.Got, res.Want, res.Table = o, outs, tableSize(w.cl)
 		for _, a := range wantArr {
 			res.WantArr = append(res.WantArr, a.String())
+		}
+		if pred.opt >= 0 {
+			res.WantArr = append(res.WantArr, "maybe "+pred.opt.String())
 		}
 		res.GotArr = len(w.arrivals())
 		causeWedged, causeExited := "late-response-after-"+o.label(), "after-"+o.label()
@@ -373,6 +398,11 @@ func runSingle(t *testing.T, c Case) result {
 }
 
 func TestC12Single(t *testing.T) {
+	if rep.ReplayPath() != "" {
+		replaySingle(t)
+
+		return
+	}
 	r := rep.New("C12")
 	defer r.Write()
 	ps := plans(rep.Thorough())
@@ -385,7 +415,7 @@ func TestC12Single(t *testing.T) {
 			}
 		}
 	}()
-	r.Note("plans=%d (RTO x answered-transmissions mask x delay x noise), each x 8 write-error positions x up to 12 Close placements", len(ps))
+	r.Note("plans=%d (RTO x answered-transmissions mask x delay x noise), each x 8 write-error positions x up to 19 Close placements", len(ps))
 	for x := shard; x < len(ps); x += n {
 		p := ps[x]
 		if r.OverBudget("c12 single-transaction fault product") {
@@ -394,7 +424,7 @@ func TestC12Single(t *testing.T) {
 		for werr := 0; werr <= maxSends; werr++ {
 			for _, cp := range closePlans(p) {
 				c := Case{RTOms: p.rto, Mask: p.mask, Delay: p.delay, Noise: p.noise, WErr: werr, Close: cp.kind, CloseK: cp.k}
-				rep.Current(map[string]any{"part": "single", "case": c, "sig_hint": "c12-single:" + c.String()})
+				rep.Current(map[string]any{"part": "single", "case": c, "sig_hint": "c12-single:case-never-quiesces(lock-held-or-spin)"})
 				res := runSingle(t, c)
 				r.Evaluations++
 				classes[res.class]++
@@ -410,35 +440,37 @@ func TestC12Single(t *testing.T) {
 	}
 }
 
-// TestC12Replay runs the single case given with -vreplay (JSON with a "case" member) and prints what happened.
-func TestC12Replay(t *testing.T) {
-	c, ok := loadReplay()
-	if !ok {
-		t.Skip("no -vreplay")
-	}
-	res := runSingle(t, c)
-	t.Logf("case: %v", c)
-	t.Logf("predicted transmissions %v outcomes %v", res.WantArr, res.Want)
-	t.Logf("observed %v, %d transmissions, table size %d", res.Got, res.GotArr, res.Table)
-	for _, v := range res.viols {
-		t.Logf("VIOLATION %s: %s", v.sig, v.detail)
-	}
-}
-
-func loadReplay() (Case, bool) {
-	var doc struct {
-		Case Case `json:"case"`
-	}
+// loadReplay reads the "case" member of the -vreplay file into c.
+func loadReplay(c any) bool {
 	if rep.ReplayPath() == "" {
-		return doc.Case, false
+		return false
 	}
 	b, err := os.ReadFile(rep.ReplayPath())
 	if err != nil {
 		panic(err)
 	}
+	doc := struct {
+		Case any `json:"case"`
+	}{Case: c}
 	if err := json.Unmarshal(b, &doc); err != nil {
 		panic(err)
 	}
 
-	return doc.Case, true
+	return true
+}
+
+// replaySingle runs the one case of the -vreplay file and prints what happened.
+func replaySingle(t *testing.T) {
+	t.Helper()
+	var c Case
+	loadReplay(&c)
+	res := runSingle(t, c)
+	fmt.Printf("case: %v\npredicted: transmissions at %v, completion %v\nobserved:  %v, %d transmissions, Client.trMap.Size()=%d after the transaction finished\n",
+		c, res.WantArr, res.Want, res.Got, res.GotArr, res.Table)
+	for _, v := range res.viols {
+		fmt.Printf("VIOLATION %s: %s\n", v.sig, v.detail)
+	}
+	if len(res.viols) == 0 {
+		fmt.Println("no violation")
+	}
 }
